@@ -34,6 +34,12 @@ def make_source(kind, name):
     raise ValueError(kind)
 
 
+def kinds_text(kinds):
+    if len(kinds) <= 4:
+        return ",".join(KIND_NAMES[k] for k in kinds)
+    return "%d sources %s" % (len(kinds), "".join(kinds))
+
+
 def vec(bits):
     v = 0
     for k, b in enumerate(bits):
@@ -242,7 +248,7 @@ class EvInst:
         self.top = EvTop(self.kinds, dw, ordering)
         self.netlist = Netlist(self.top)
         self.view = v = EvView(self.top.ev, self.top.bank, self.top.bus, self.kinds, 0, ordering)
-        self.name = "EventManager[%s]/csr%d%s%s" % (",".join(KIND_NAMES[k] for k in self.kinds), dw,
+        self.name = "EventManager[%s]/csr%d%s%s" % (kinds_text(self.kinds), dw,
                                                     "/little" if ordering == "little" else "", tag)
         self.lean_open = "ev %d %d %s" % (dw, 1 if ordering == "little" else 0, " ".join(self.kinds))
         self.qual = [None] * 5
@@ -252,6 +258,8 @@ class EvInst:
         self._queue = []
         # ---- alphabet for mode A
         n = v.n
+        if trigs is not None and masks == "all":
+            masks = "onehot"            # mode-B instances: the alphabet is not used, keep it small
         ops = [(v.idle_adr(), 0, 0, 0)]
         if reads:
             ops += [(v.bus_adr(l), 0, 0, 1) for l in range(3 * v.nw)]
@@ -376,7 +384,7 @@ class SharedInst:
         self.top = SharedTop(kinds_list, dw, ordering)
         self.netlist = Netlist(self.top)
         self.views = [EvView(t.ev, t.bank, t.bus, k, 0, ordering) for t, k in zip(self.top.tops, kinds_list)]
-        self.name = "SharedIRQ[%s]/csr%d" % (" | ".join(",".join(KIND_NAMES[k] for k in ks) for ks in kinds_list), dw)
+        self.name = "SharedIRQ[%s]/csr%d" % (" | ".join(kinds_text(ks) for ks in kinds_list), dw)
         self.lean_open = "shared " + " | ".join("%d %d %s" % (dw, 1 if ordering == "little" else 0, " ".join(ks))
                                                 for ks in kinds_list)
         self.qual = [None] * (1 + 5 * len(self.views))
@@ -388,7 +396,10 @@ class SharedInst:
             ops = [(v.idle_adr(), 0, 0), (v.bus_adr(v.local_index(1, 0)), 1, full),
                    (v.bus_adr(v.local_index(2, 0)), 1, full), (v.bus_adr(v.local_index(2, 0)), 1, 0)]
             per.append([(t,) + op for t in range(1 << v.n) for op in ops])
-        self.alphabet = [sum(c, ()) for c in itertools.product(*per)]
+        size = 1
+        for p in per:
+            size *= len(p)
+        self.alphabet = [sum(c, ()) for c in itertools.product(*per)] if size <= 4096 else []   # large: mode B only
 
     def apply(self, letter):
         for j, v in enumerate(self.views):
@@ -467,6 +478,7 @@ class ClientInst:
         self.last_obs = None
         self.ns = len(self.stim)
         self._queue = []
+        self.alphabet = []                # mode B only
 
     def apply(self, letter):
         n = self.netlist
